@@ -98,10 +98,39 @@ class Gen:
         return r.choice(pool)
 
     # ---------------------------------------------------------------- string / buffer cases
+    def kmp_stress(self):
+        """a longer pattern over {a,b} and a text made of its prefixes / near misses: exercises the failure table"""
+        r = self.r
+        n = r.range(3, 10)
+        k = r.below(4)
+        if k == 0:
+            pat = bytes(r.choice(ALPHA_SMALL) for _ in range(n))
+        elif k == 1:      # a^i b a^j ...
+            pat = b''.join(bytes([r.choice(ALPHA_SMALL)]) * r.range(1, 3) for _ in range(r.range(2, 5)))[:10]
+        elif k == 2:      # bordered: u v u
+            u = bytes(r.choice(ALPHA_SMALL) for _ in range(r.range(1, 3)))
+            pat = (u + bytes(r.choice(ALPHA_SMALL) for _ in range(r.below(3))) + u + u[:r.below(len(u) + 1)])[:10]
+        else:             # periodic with a defect
+            u = bytes(r.choice(ALPHA_SMALL) for _ in range(r.range(1, 3)))
+            pat = bytearray((u * 6)[:n])
+            pat[r.below(len(pat))] ^= 3
+            pat = bytes(pat)
+        parts = []
+        for _ in range(r.range(1, 7)):
+            j = r.below(6)
+            if j < 3: parts.append(pat[:r.range(1, len(pat))])
+            elif j < 4: parts.append(pat)
+            elif j < 5: parts.append(pat[r.below(len(pat)):])
+            else: parts.append(bytes(r.choice(ALPHA_SMALL) for _ in range(r.below(3))))
+        return pat, b''.join(parts)
+
     def case_search(self):
         r = self.r
-        text = self.raw(small=r.chance(2, 3))
-        pat = self.pattern(text)
+        if r.chance(1, 2):
+            pat, text = self.kmp_stress()
+        else:
+            text = self.raw(small=r.chance(2, 3))
+            pat = self.pattern(text)
         f = r.choice(['string/find', 'string/find-all', 'string/replace', 'string/replace-all', 'string/split',
                       'string/find-all', 'string/replace-all', 'string/split'])
         a = [(self.bkind(), pat)]
@@ -349,6 +378,11 @@ class Gen:
             return (f, [self.seqv(elems=[self.scalar() for _ in range(r.below(5))]) for _ in range(r.choice([1, 2, 2, 3, 4, 5]))])
         if f == 'interpose':
             return (f, [self.scalar(), self.seqv()])
+        if f == 'range' and r.chance(1, 3):
+            fl = lambda: r.choice([I(r.range(-5, 9)), ('d', r.choice([0.1, 0.01, 0.3, 0.7, 1.5, -0.1, -1.5, 0.12000000000000001, 0.36000000000000004,
+                                                                     2.5, 1e-3, float('inf'), float('-inf'), float('nan')])),
+                                   ('d', r.range(1, 60) * r.choice([0.1, 0.01, 0.3, 0.7]))])
+            return (f, [fl() for _ in range(1 + r.below(3))])
         if f == 'range':
             k = r.below(3)
             if k == 0: return (f, [I(r.range(-3, 12))])
@@ -383,6 +417,39 @@ class Gen:
             return (r.choice(['(', '[']), [tree(d - 1) for _ in range(r.below(4))])
         return (f, [(kind, [tree(3) for _ in range(r.below(5))])])
 
+    def case_format(self):
+        r = self.r
+        parts, vals = [], []
+        for _ in range(r.below(4)):
+            parts.append(self.raw(r.below(3), small=True).replace(b'%', b''))
+            flags = r.choice([b'', b'', b'-', b'0', b'+', b' '])
+            width = r.choice([b'', b'', b'1', b'5', b'8'])
+            d = r.choice([b'd', b'i', b'x', b'X', b'o', b's', b'f', b'e', b'g', b'c', b'%', b'd', b's'])
+            prec = b''
+            if d in b'feg' and r.chance(1, 2): prec = b'.' + bytes([48 + r.below(6)])
+            if d == b's' and r.chance(1, 3): prec = b'.' + bytes([48 + r.below(4)])
+            if d == b's' and flags in (b'0', b'+', b' '): flags = b''
+            if d == b'c': flags = r.choice([b'', b'-'])
+            if d == b'%':
+                parts.append(b'%%')
+                continue
+            parts.append(b'%' + flags + width + prec + d)
+            if d in b'di': vals.append(I(r.choice([0, 1, -1, 42, -42, 12345, INT32_MAX, INT32_MIN, r.range(-1000, 1000)])))
+            elif d in b'xXo': vals.append(I(r.choice([0, 1, 255, 256, 4095, INT32_MAX, r.below(100000)])))
+            elif d == b'c': vals.append(I(r.choice([65, 97, 48, 122, 33])))
+            elif d == b's': vals.append((self.bkind(), bytes(r.choice([0x61, 0x62, 0x41, 0x20, 0x7a]) for _ in range(r.below(6)))))
+            else: vals.append(r.choice([I(r.range(-50, 50)), ('d', r.choice([0.5, -1.25, 3.14159, 1e10, 1e-5, 123456.789, 0.1]))]))
+        parts.append(self.raw(r.below(3), small=True).replace(b'%', b''))
+        k = r.below(12)
+        if k == 0 and vals: vals.pop()                       # missing argument -> error
+        elif k == 1 and vals:
+            i = r.below(len(vals))
+            if vals[i][0] in ('i', 'd'): vals[i] = S(b'zz')  # string where a number is expected -> error
+        fmt = S(b''.join(parts))
+        if r.chance(1, 3):
+            return ('buffer/format', [self.bufv(), fmt] + vals)
+        return ('string/format', [fmt] + vals)
+
     # ---------------------------------------------------------------- ill-typed / arity mutations of a valid case
     def illtyped(self, case):
         r = self.r
@@ -413,12 +480,12 @@ class Gen:
 
     STRBUF = ['case_search', 'case_search', 'case_search', 'case_join', 'case_slice', 'case_slice', 'case_trim', 'case_small',
               'case_push', 'case_push', 'case_blit', 'case_blit', 'case_bufmisc', 'case_array', 'case_array']
-    SEQ = ['case_sort', 'case_sort', 'case_seq', 'case_seq', 'case_seq']
+    SEQ = ['case_sort', 'case_sort', 'case_seq', 'case_seq', 'case_seq', 'case_format']
 
     def case(self):
         r = self.r
         name = r.choice(self.STRBUF + self.SEQ)
         c = getattr(self, name)()
-        if name not in ('case_sort', 'case_seq') and r.chance(1, 9):
+        if name not in ('case_sort', 'case_seq', 'case_format') and r.chance(1, 9):
             c = self.illtyped(c)
         return c
